@@ -58,9 +58,9 @@ Print Assumptions C18_pub_closure_is_rt_closure.
    elements of 2 are found through the public edge, those of 3 (a non-public import of 2) are not *)
 Example C18_nonvacuous :
   graph_ok ex_G = true /\
-  resolver_find ex_G (mkV 0 [(1, false, true)] [] [])%N (QName 5) = VFound 2 5 /\
-  resolver_find ex_G (mkV 0 [(1, false, true)] [] [])%N (QName 7) = VNotFound /\
-  resolver_find ex_G (mkV 0 [(1, false, true)] [] [])%N (QExt 9 100) = VFound 2 6 /\
-  resolver_find ex_G (mkV 0 [(1, false, true)] [] [])%N (QPath 3) = VNotFound /\
-  resolver_find ex_G (mkV 2 [(1, true, true); (3, false, true)] [5] [(9, 100%Z, 6)])%N (QPath 3) = VFound 3 3.
+  resolver_find ex_G (mkV 0 [(1, false)] [] [] [1])%N (QName 5) = VFound 2 5 /\
+  resolver_find ex_G (mkV 0 [(1, false)] [] [] [1])%N (QName 7) = VNotFound /\
+  resolver_find ex_G (mkV 0 [(1, false)] [] [] [1])%N (QExt 9 100) = VFound 2 6 /\
+  resolver_find ex_G (mkV 0 [(1, false)] [] [] [1])%N (QPath 3) = VNotFound /\
+  resolver_find ex_G (mkV 2 [(1, true); (3, false)] [5] [(9, 100%Z, 6)] [1; 3])%N (QPath 3) = VFound 3 3.
 Proof. exact visibility_example. Qed.
